@@ -80,7 +80,9 @@ Inductive cmd :=
 | CConvert                                         (* obiconvert: identity *)
 | CComplement                                      (* obicomplement: ReverseComplement(inplace) *)
 | CGrep (invert : bool) (lmin lmax cmin cmax : Z)  (* obigrep [-v] -l -L -c -C (defaults 1, 2e9, 1, 2e9) *)
-| CAnnotLength.                                    (* obiannotate --length *)
+| CAnnotLength                                     (* obiannotate --length *)
+| CCondComplement (invert : bool) (lmin lmax cmin cmax : Z).
+                                                   (* MakeIConditionalWorker(predicate, ReverseComplement): selected records transformed, others unchanged *)
 
 Definition unset_max : Z := 2000000000%Z.
 (* obigrep/options.go CLISequenceSizePredicate / CLISequenceCountPredicate: a minimum is only applied when > 1,
@@ -127,6 +129,7 @@ Definition cmd_f (c : cmd) (r : rec) : list rec :=
   | CComplement => [revcomp_rec r]
   | CGrep inv lmin lmax cmin cmax => if xorb inv (grep_pred lmin lmax cmin cmax r) then [r] else []
   | CAnnotLength => [mkrec (rid r) (rseq r) (rqual r) (set_ann key_seq_length (VInt (rec_len r)) (rann r))]
+  | CCondComplement inv lmin lmax cmin cmax => if xorb inv (grep_pred lmin lmax cmin cmax r) then [revcomp_rec r] else [r]
   end.
 (* inputs on which cmd_f is the whole story (otherwise the record is outside the model):
    ReverseComplement also rewrites a "pairing_mismatches" map; Count() of a non-integer "count" is not modelled *)
@@ -134,7 +137,7 @@ Definition cmd_pre (c : cmd) (r : rec) : bool :=
   nodup_keys (rann r) &&
   match lookup_ann key_count (rann r) with None | Some (VInt _) => true | _ => false end &&
   match c with
-  | CComplement => match lookup_ann key_pairing_mismatches (rann r) with None => true | Some _ => false end
+  | CComplement | CCondComplement _ _ _ _ _ => match lookup_ann key_pairing_mismatches (rann r) with None => true | Some _ => false end
   | _ => true
   end.
 
@@ -183,7 +186,10 @@ End Fold.
 Definition count_out (arr : list (list rec)) : cnt := fold_batches rec cnt cnt_add cnt_zero cnt_of arr.
 
 (* correspondence: observed output of the REAL command on [inp] *)
-Inductive ccase := Map (c : cmd) (o : list rec) | Count (v r s : Z) | Csv (keys : list (list N)) (rows : list (list aval)).
+(* MapNQ: the same input records given WITHOUT qualities (FASTA file) *)
+Inductive ccase := Map (c : cmd) (o : list rec) | Count (v r s : Z) | Csv (keys : list (list N)) (rows : list (list aval))
+                 | MapNQ (c : cmd) (o : list rec).
+Definition strip_qual (r : rec) : rec := mkrec (rid r) (rseq r) None (rann r).
 Definition cnt_eqb (a b : cnt) : bool :=
   match a, b with (v1, r1, s1), (v2, r2, s2) => Z.eqb v1 v2 && Z.eqb r1 r2 && Z.eqb s1 s2 end.
 Definition case_ok (inp : list rec) (c : ccase) : bool :=
@@ -191,6 +197,7 @@ Definition case_ok (inp : list rec) (c : ccase) : bool :=
   | Map c o => forallb (cmd_pre c) inp && recs_eqb (flat_map (cmd_f c) inp) o
   | Count v r s => forallb (cmd_pre CConvert) inp && cnt_eqb (fold_spec rec cnt cnt_add cnt_zero cnt_of inp) (v, r, s)
   | Csv keys rows => forallb (cmd_pre CConvert) inp && forallb (csv_pre keys) inp && rows_eqb (flat_map (csv_f keys) inp) rows
+  | MapNQ c o => forallb (cmd_pre c) inp && recs_eqb (flat_map (cmd_f c) (map strip_qual inp)) o
   end.
 Fixpoint cmd_mismatches_from (i : nat) (inp : list rec) (cs : list ccase) : list nat :=
   match cs with
